@@ -140,6 +140,12 @@ func (r *FnRun) initialGlobal(st *State, g *ssa.Global) Val {
 		}
 	}
 	r.note("global %s treated as immutable after package initialisation", g.String())
+	// dynamic types of well-known interface-typed library values
+	if dyn, ok := map[string]string{"io.Discard": "io.discard"}[g.String()]; ok && !r.decl["dyn:"+name] {
+		r.decl["dyn:"+name] = true
+		r.declareFun("dtype", []Sort{SInt}, SInt)
+		fmt.Fprintf(&r.prelude, "(assert (and (> %s 0) (= (dtype %s) %d)))\n", name, name, r.e.typeCodeByName(dyn, ""))
+	}
 	return r.wrapScalar(Term{name, srt}, elem)
 }
 
